@@ -628,7 +628,7 @@ def make_hooks(real_only_sinks=None):
         a = models.np_asarray(a)
         mk = lambda v: DV(tags_of(v), '?', note='real_if_close: imaginary parts dropped when all |imag| < %s eps (absolute)' % (tol,))
         return Arr(a.shape, [mk(v) for v in a.items()]) if isinstance(a, Arr) else mk(a)
-    hooks['real_if_close'] = real_if_close
+    # (not installed: np.real_if_close of undetermined imaginary parts is a decision of the program, explored on both sides)
 
     def convolve1d(models, seq, weights, axis=-1, mode='reflect', origin=0):
         """Data-abstract convolve1d: interior slots as in the exact model; a border slot (window leaves the
